@@ -135,6 +135,16 @@ func c11R1(c *Ctx) {
 			if !ok {
 				reason, ok = c.tabledS(c11AssertTable, fn, "|"+shortType(ta.AssertedType)+"|"+origin)
 			}
+			if !ok {
+				inScope := map[*ssa.Function]bool{}
+				for _, f2 := range pfns {
+					inScope[f2] = true
+				}
+				reason, ok = c.sharedTabledIn(c11AssertTable, fn, shortType(ta.AssertedType)+"|"+origin, inScope)
+				if !ok {
+					reason, ok = c.sharedTabledIn(c11AssertTable, fn, shortType(ta.AssertedType)+"|", inScope)
+				}
+			}
 			if !ok && shortType(ta.AssertedType) == "map[string]any" {
 				// a shared helper asserting its parameter: justified if every call site hands it an Unserialize success value
 				if _, isParam := ta.X.(*ssa.Parameter); isParam {
